@@ -337,3 +337,92 @@ func H_C09_hetero_keys() {
 	}
 	vReach("end")
 }
+
+// ---- pre-states reached through different histories, two operations from there ----
+//
+// The abstract state (recency-ordered content) does not say how it was reached. Whatever else the
+// implementation remembers between calls (a last-hit memo, a lazily built index, a counter) depends on
+// the history, so the builder below ends with 0..2 *uses* of keys that are already live -- a Load hit or
+// a re-Store of the value the key holds -- each of which also moves the key to the front in the
+// reference. Two operations follow, each judged against the reference, then the whole state.
+func vLRUTouch(l *LRUCache, ref *vRefLRU, name string) {
+	if len(ref.items) == 0 {
+		return
+	}
+	i := vndChoice(name+"_idx", len(ref.items))
+	k, v := ref.items[i].k, ref.items[i].v
+	if vndBool(name + "_byStore") {
+		l.Store(k, v)
+		ref.store(k, v)
+	} else {
+		got, ok := l.Load(k)
+		vAssert(ok, "C09 touch: a live key is a hit")
+		if ok {
+			vAssert(got.(int) == v, "C09 touch: value most recently stored")
+		}
+		ref.load(k)
+	}
+}
+
+func vLRUOp(l *LRUCache, ref *vRefLRU, name string, v int) {
+	k := vndInt(name + "_k")
+	vAssume(k != vPumpKey)
+	switch vndChoice(name+"_op", 4) {
+	case 0:
+		l.Store(k, v)
+		ref.store(k, v)
+	case 1:
+		got, ok := l.Load(k)
+		want, wok := ref.load(k)
+		vAssert(ok == wok, "C09 step2 load: hit exactly the live keys")
+		if ok && wok {
+			vAssert(got.(int) == want, "C09 step2 load: value most recently stored")
+		}
+	case 2:
+		l.Delete(k)
+		ref.del(k)
+	case 3:
+		vAssert(l.Len() == len(ref.items), "C09 step2 len: equals live entries")
+	}
+}
+
+func vLRUStep2(maxCap, touches int) {
+	c, items, pump := vLRUPre(maxCap)
+	var log []vKV
+	l := vMkLRU(c, items, pump, &log)
+	ref := &vRefLRU{cap: c, items: append([]vKV(nil), items...)}
+	nt := vndChoice("touches", touches+1)
+	for t := 0; t < nt; t++ {
+		vLRUTouch(l, ref, "t"+vNum(t))
+	}
+	vLRUOp(l, ref, "a", 998)
+	vLRUOp(l, ref, "b", 999)
+	vReach("end")
+	vCheckLRU(l, ref, log, "C09 two steps from a touched pre-state")
+}
+
+func H_C09_step2_touched()   { vLRUStep2(2, 2) }
+func H_C09T_step2_touched3() { vLRUStep2(3, 2) }
+
+// ---- larger capacities: one operation from a full or nearly full cache of a written-out capacity ----
+func vLRUStepAt(c int) {
+	n := c - vndChoice("free", 2) // full, or one free slot
+	items := make([]vKV, n)
+	for i := 0; i < n; i++ {
+		items[i] = vKV{1000 + i, 100 + i} // concrete distinct keys: only the operation's key is symbolic
+	}
+	var log []vKV
+	l := vMkLRU(c, items, 0, &log)
+	ref := &vRefLRU{cap: c, items: append([]vKV(nil), items...)}
+	vLRUOp(l, ref, "a", 998)
+	vLRUOp(l, ref, "b", 999)
+	vReach("end")
+	vCheckLRU(l, ref, log, "C09 larger capacity")
+}
+
+func H_C09_cap8()   { vLRUStepAt(8) }
+func H_C09_cap16()  { vLRUStepAt(16) }
+func H_C09_cap17()  { vLRUStepAt(17) }
+func H_C09T_cap32() { vLRUStepAt(32) }
+func H_C09T_cap33() { vLRUStepAt(33) }
+func H_C09T_cap64() { vLRUStepAt(64) }
